@@ -136,7 +136,9 @@ class Alternative(ElseIf, ConclusionSelector):
         outputs = super()._evaluate__(sources, yield_when_false=yield_when_false)
         for output in outputs:
             left_is_true = not self.left._is_false_
-            right_is_true = not self.right._is_false_
+            # When the left branch did not fire, the truth of this output is the truth of the right branch; unlike the
+            # right operand's own flag it is also set when the output was replayed from the result cache.
+            right_is_true = not self._is_false_
             if left_is_true:
                 self.update_conclusion(output, self.left._conclusion_)
             elif right_is_true:
